@@ -10,7 +10,6 @@ import (
 	"sort"
 	"strconv"
 	"strings"
-	"unicode/utf8"
 
 	"golang.org/x/tools/go/ssa"
 )
@@ -76,9 +75,11 @@ func (e *Engine) external(fn *ssa.Function, name string) extFn {
 	return nil
 }
 
+var knownGlobals = map[string]bool{"os.ErrNotExist": true, "os.Stdout": true, "os.Stderr": true, "os.Args": true, "io.EOF": true}
+
 func (e *Engine) initAllowed(p *ssa.Package) bool {
 	path := p.Pkg.Path()
-	if p == e.Pkg || strings.HasPrefix(path, "golang.org/x/exp/") {
+	if p == e.Pkg || strings.HasPrefix(path, "golang.org/x/exp/") || path == "unicode/utf8" || path == "math/bits" {
 		return true
 	}
 	if e.RefProg != nil && p.Prog == e.RefProg {
@@ -450,9 +451,6 @@ func (e *Engine) registerStd() {
 	e.Register("math/bits.Len64", func(fr *frame, a []value) value { return fr.mkInt(int64(bits.Len64(a[0].(uint64)))) })
 	e.Register("math/bits.Len32", func(fr *frame, a []value) value { return fr.mkInt(int64(bits.Len32(uint32(a[0].(uint64))))) })
 	e.Register("math/bits.TrailingZeros64", func(fr *frame, a []value) value { return fr.mkInt(int64(bits.TrailingZeros64(a[0].(uint64)))) })
-
-	// ---- unicode/utf8 (concrete only)
-	e.Register("unicode/utf8.RuneLen", func(fr *frame, a []value) value { return fr.mkInt(int64(utf8.RuneLen(rune(int32(a[0].(uint64)))))) })
 
 	// ---- sort
 	stable := func(fr *frame, a []value) value {
